@@ -146,7 +146,20 @@ def strip_comments(src):
 
 # tie T: which GenEq files (regenerated definitions = model) each property relies on
 TIES = {
+    "C03": ["GenEq/GenEqTestcase", "GenEq/GenEqUtil", "GenEq/GenEqStrat"],
+    "C04": ["GenEq/GenEqTestcase", "GenEq/GenEqUtil"],
+    "C05": ["GenEq/GenEqSplit", "GenEq/GenEqStrat"],
+    "C06": ["GenEq/GenEqSplit"],
     "C07": ["GenEq/GenEqTestcase", "GenEq/GenEqUtil"],
+    "C08": ["GenEq/GenEqSplit"],
+    "C09": ["GenEq/GenEqTestcase", "GenEq/GenEqUtil", "GenEq/GenEqStrat"],
+    "C10": ["GenEq/GenEqTestcase", "GenEq/GenEqUtil", "GenEq/GenEqStrat"],
+    "C13": ["GenEq/GenEqTestcase", "GenEq/GenEqUtil"],
+    "C14": ["GenEq/GenEqTestcase", "GenEq/GenEqUtil", "GenEq/GenEqStrat"],
+    "C15": ["GenEq/GenEqSplit"],
+    "C16": ["GenEq/GenEqSplit"],
+    "C18": ["GenEq/GenEqStatus"],
+    "C20": ["GenEq/GenEqTemp"],
 }
 
 
